@@ -257,6 +257,10 @@ def check(repo):
                    "%s open mode no longer raises FileNotFoundError for a missing path" % cname)
         unknown = refusals(Ff, lambda k, t: k[0] == "==" and "'r'" in k[1:] and entry(fmode) in k[1:] and not t, ("TypeError",))
         unknown = [n for n in unknown if any(k[0] == "==" and "'c'" in k[1:] and not t for (k, t) in Ff.at(n.id))]
+        if not unknown:
+            # the same refusal as one membership test: mode not in ("r", "c")
+            from ..contract import member as _member
+            unknown = refusals(Ff, _member(entry(fmode), {"r", "c"}, False), ("TypeError",))
         r4.require(bool(unknown), f, "%s refuses unknown modes" % cname, "%s no longer refuses unknown modes" % cname)
         rl = repo.cls(PD, cname).methods.get("release")
         okr = False
